@@ -1,5 +1,6 @@
 pub mod bmt_ref;
 pub mod bmt_shared;
+pub mod fields_gen;
 pub mod instr_gen;
 pub mod smt;
 pub mod vmstep;
